@@ -134,3 +134,9 @@ func StrContains(s, sub string) bool {
 	}
 	return false
 }
+
+func ForallString2(body func(a, b string) bool) bool    { panic("verifspec: proof-only quantifier") }
+func ForallString3(body func(a, b, c string) bool) bool { panic("verifspec: proof-only quantifier") }
+
+// SameBytes compares two byte slices (length and contents).
+func SameBytes(a, b []byte) bool { return string(a) == string(b) }
